@@ -159,6 +159,7 @@ var keyPool = func() []keyEntry {
 		mkKey[MyInt]("myint", tyMyInt), mkKey[MyStr]("mystr", tyMyStr), mkKey[MyF64]("myf", tyMyF64),
 		mkKey[P]("p", tyP), mkKey[Q]("q", tyQ), mkKey[[]int]("ints", tyIntSlice),
 		mkKey[map[string]int]("msi", tyMapSI), mkKey[[2]int]("arr", tyArr2),
+		mkKey[int]("s", tyInt), mkKey[string]("n", tyString),
 	}
 	for i := range ks {
 		ks[i].ID = i
